@@ -4,6 +4,7 @@
    [wregister] follows WeightedTally.register statement by statement: the four
    isinstance / isnan checks in the order of the code, weight < 0, min / max := +-inf
    when n = 0, min, max and n updated BEFORE the zero-weight early return, then
+   ([value = float(value)] after the checks is the identity on [ONum]'s universe),
    n_nonzero, sum_of_weights, the weighted mean (Python association
    [(weight / sum) * (value - prev)]), weight_times_variance and weighted_sum.
    Every getter returns [Val x | NaNres | Raise k].
